@@ -465,13 +465,15 @@ async fn delete_stale_files(
                 }
             }
         }
-    }
 
-    // Can error if the local directory is not empty!
-    if let Err(error) = vfs::remove_dir(options.paths.local_dir()).await {
-        tracing::error!(
-            error = %error,
-            "upgrade_accounts::remove_local_dir");
+        // Can error if the local directory is not empty!
+        if let Err(error) =
+            vfs::remove_dir(options.paths.local_dir()).await
+        {
+            tracing::error!(
+                error = %error,
+                "upgrade_accounts::remove_local_dir");
+        }
     }
 
     Ok(files)
